@@ -7,7 +7,8 @@ import random
 from .. import core, tlc
 
 BASE = dict(Kinds={"insert", "insert_cols", "ctas"}, Schemas={"none", "s"}, Bare={"a", "b"}, TAliases={"x", "b"}, SAliases={"x", "y"},
-            ColNames={"c", "d"}, MaxRels=2, MaxItems=2, MaxRefs=1, Known=set(), Emit=False, WithUnion=False, WithMeta=False, WithLiteral=False)
+            ColNames={"c", "d"}, MaxRels=2, MaxItems=2, MaxRefs=1, Known=set(), Emit=False, WithUnion=False, WithMeta=False, WithLiteral=False,
+            WithForeign=False)
 
 
 def cfg(chk, name, invariants=("MachineFlowExact", "EmitCase"), **kw):
@@ -20,6 +21,7 @@ def _run_chunk(args):
     jobs = args
     os.chdir("/tmp")
     from .. import col_drv, render_col, stmt_drv
+    import sqllineage.runner  # noqa: import the library before any scoped configuration is entered (import-time defaults)
     out = []
     for j in jobs:
         p = j["prog"]
@@ -33,7 +35,27 @@ def _run_chunk(args):
             out.append({"skip": "parser rejects"})
             continue
         md = render_col.metadata_of(p) if j.get("metadata", True) else None
-        o = col_drv.flow(sql, dia, metadata=md or None)
+        ds = j.get("ds")
+        if ds and j.get("mech") == "scoped":
+            from sqllineage.config import SQLLineageConfig
+            with SQLLineageConfig(DEFAULT_SCHEMA=ds):
+                o = col_drv.flow(sql, dia, metadata=md or None)
+        else:
+            o = col_drv.flow(sql, dia, metadata=md or None)
+        if ds:
+            # projection: names under the (fresh) default schema are written back as the placeholder the specification uses
+            def back(n):
+                if isinstance(n, str) and n.startswith(ds + "."):
+                    return "<default>." + n[len(ds) + 1:]
+                if isinstance(n, str) and n.startswith("<default>."):
+                    return "<placeholder although a default schema is set>." + n[len("<default>."):]
+                return n
+            for x in o["flow"]:
+                x["t"] = back(x["t"])
+                x["cands"] = sorted(back(c) for c in x["cands"])
+            o["reads"] = [back(t) for t in o["reads"]]
+            o["target"] = [back(t) for t in o["target"]]
+            o["mech"] = j.get("mech")
         o["sql"] = sql
         o["dialect"] = dia
         o["metadata"] = md
